@@ -103,8 +103,10 @@ class SgzCropper(SgzReader):
 
         # We need to inform the SEG-Y binary header what has happened to the trace length, otherwise
         # segyio will get all confused if attempting to read the cropped SGZ converted back to SEG-Y
-        header[DISK_BLOCK_BYTES + SEGY_TEXT_HEADER_BYTES + 20:
-               DISK_BLOCK_BYTES + SEGY_TEXT_HEADER_BYTES + 22] = struct.pack('>H', len_zslices)
+        # (the field is 16 bits wide: a longer trace cannot be stated there, nor exported to SEG-Y)
+        if len_zslices <= 0xFFFF:
+            header[DISK_BLOCK_BYTES + SEGY_TEXT_HEADER_BYTES + 20:
+                   DISK_BLOCK_BYTES + SEGY_TEXT_HEADER_BYTES + 22] = struct.pack('>H', len_zslices)
 
         return header
 
